@@ -89,6 +89,11 @@ def cut(data, k, level=1):
     return out or None
 
 
+def npath(path):
+    """Error paths carry a position only among same-named siblings: [1] is dropped for comparison."""
+    return None if path is None else path.replace("[1]", "")
+
+
 def ekey(e, ipath):
     """An error is identified by the node it is about (index path in the parsed tree) and its reason."""
     return (ipath.get(id(e.elem)) if e.elem is not None else None, stable(e.reason)[:160])
@@ -167,6 +172,28 @@ def judge(job):
             if perr != werr:
                 out.append((rec, ver, xml, f"iter_errors(path={path!r}) = {perr}, whole-document errors in that "
                             f"subtree = {werr}"))
+        # (c'') the same from the document TEXT (the resource knows the namespace declarations itself: no
+        # namespaces argument; QName values use prefixes declared on ancestors of the selected element)
+        try:
+            tfull = sorted((npath(e.path), stable(e.reason)[:160]) for e in s.iter_errors(xml))
+        except Exception as e:      # noqa: BLE001
+            out.append((rec, ver, xml, f"iter_errors on the text raised {type(e).__name__}: {e}"[:200]))
+            tfull = None
+        for nd in declared if tfull is not None else ():
+            p = tuple(nd["path"])
+            path = spellings(steps[p])[0][0]
+            n += 1
+            try:
+                tpart = sorted((npath(e.path), stable(e.reason)[:160]) for e in s.iter_errors(xml, path=path))
+                tvalid = s.is_valid(xml, path=path)
+            except Exception as e:      # noqa: BLE001
+                out.append((rec, ver, xml, f"iter_errors(text, path={path!r}) raised {type(e).__name__}: {e}"[:200]))
+                continue
+            np_ = npath(path)
+            twant = [k for k in tfull if k[0] is not None and (k[0] == np_ or k[0].startswith(np_ + "/"))]
+            if tpart != twant or tvalid != (not twant):
+                out.append((rec, ver, xml, f"text source: iter_errors(path={path!r}) = {tpart} (is_valid={tvalid}), "
+                            f"whole-document errors in that subtree = {twant}"))
         # (c') wildcard-terminated paths: all children of an element at once
         for nd in declared:
             p = tuple(nd["path"])
@@ -213,7 +240,8 @@ def judge_identity(job):
     """Partial validation of documents with identity constraints: the errors reported for the selected part
     are the whole-document errors located in it (constraint on the root or on the intermediate element)."""
     from checks import c08
-    recs, ver, kind, level = job
+    recs, ver, kind, level = job[:4]
+    ids = len(job) > 4        # documents with xs:ID / xs:IDREF(S) rows: no matcher of a known finding applies
     out = []
     n = 0
     s = cm.schema_class(ver)(c08.schema_xsd(1, kind, level, "integer", "attr", "child"))
@@ -235,6 +263,10 @@ def judge_identity(job):
                                          for j, r in enumerate(sc) if r["k"] == "k"], True)]
         for i in range(len(rec["doc"])):
             selections.append((f"/t:r/t:s[{i + 1}]", [(i + 1,)], False))
+        if ids:
+            # xs:ID / xs:IDREF are document-wide: only selections that hold EVERY row are comparable; a selection of
+            # the rows themselves separates an ID-typed child element from the parent it identifies in XSD 1.1
+            selections = selections[:3] + (selections[3:4] if ver == "1.0" else [])
         for path, roots, rows in selections:
             n += 1
             try:
@@ -280,7 +312,65 @@ def judge_identity(job):
                 out.append((rec, ver, xml, f"iter_errors(path={path!r}) = {perr}; whole-document errors in the "
                             f"selected part = {want}, of the enclosing elements = {enclosing}: missing {missing}, "
                             f"not explained {invented}",
-                            "F-C20-c" if relocated == "c" else "F-C20-a" if relocated else None))
+                            None if ids else "F-C20-c" if relocated == "c" else "F-C20-a" if relocated else None))
+    return out, n
+
+
+def judge_subst(job):
+    """Substitution groups (spec/Derivation.tla, mode subst): the child of P selected by an EXPLICIT path is
+    validated against its own global declaration (SubstPartialValid) and decodes to the projection of the
+    whole-document data when the whole document is valid."""
+    from checks import c07
+    cfg, types, cases = job
+    out = []
+    n = 0
+    ns = {"t": "urn:T"}
+    xsd = c07.xsd_subst(cfg, types)
+    for ver in ("1.0", "1.1"):
+        schema, err = cm.build(ver, xsd)
+        if schema is None:
+            continue        # judged by C07
+        for child, valid, pvalid in cases:
+            xml = c07.xml_subst(cfg, types, child)
+            root = ET.fromstring(xml)
+            for path in (f"/t:P/t:{child}", f"t:{child}", f"/t:P/t:{child}[1]"):
+                n += 1
+                try:
+                    got = schema.is_valid(root, path=path, namespaces=ns)
+                    errs = [stable(e.reason)[:120] for e in schema.iter_errors(root, path=path, namespaces=ns)]
+                    got_text = schema.is_valid(xml, path=path)
+                    part = schema.decode(root, path=path, validation="lax", namespaces=ns)[0]
+                    xe = schema.get_element(root[0].tag, f"/t:P/t:{child}", ns)
+                except Exception as e:      # noqa: BLE001
+                    out.append((ver, child, xml, f"path={path!r} raised {type(e).__name__}: {e}"[:200], None))
+                    continue
+                # where the child may not stand for H (blocked / abstract; or, F-C07-a, a member of a member under an
+                # intermediate block) the schema path admits no such element: the implementation then skips the
+                # selected element silently (F-C20-b) - a deviation only if its own declaration is abstract
+                weak = (not valid) or (child == "M2" and (cfg["m1sub"] or "sub" in cfg["dflt"]))
+                if xe is None and weak:
+                    if got is not True or errs:
+                        out.append((ver, child, xml, f"is_valid(path={path!r}) = {got}, errors {errs} although no "
+                                    f"declaration was found for the selected element", None))
+                    elif not pvalid:
+                        out.append((ver, child, xml, f"is_valid(path={path!r}) = True without errors: the selected "
+                                    f"element (abstract declaration) is skipped", "F-C20-b"))
+                    continue
+                if xe is None or xe.name != root[0].tag or xe.type is not schema.elements[child].type:
+                    out.append((ver, child, xml, f"get_element(path={path!r}) -> {xe!r}: not the declaration of {child}",
+                                None))
+                elif got != pvalid or got_text != pvalid or bool(errs) == pvalid:
+                    out.append((ver, child, xml, f"is_valid(path={path!r}) = {got} (text source: {got_text}), errors "
+                                f"{errs}; the element is {'valid' if pvalid else 'invalid'} against its own declaration",
+                                None))
+                elif valid:
+                    full = schema.decode(root, validation="lax", namespaces=ns)[0]
+                    want = (full or {}).get(f"t:{child}", KeyError) if isinstance(full, dict) else KeyError
+                    if isinstance(part, dict):
+                        part = {k: v for k, v in part.items() if not k.startswith("@xmlns")} or None
+                    if want is not KeyError and part != want:
+                        out.append((ver, child, xml, f"decode(path={path!r}) = {part!r}, projection of the whole "
+                                    f"result = {want!r}", None))
     return out, n
 
 
@@ -310,13 +400,42 @@ def run(ctx: Ctx):
         if not thorough:
             irecs = irecs[::2]
         ijobs += [(irecs[i:i + 40], ver, kind, level) for ver in ("1.0", "1.1") for i in range(0, len(irecs), 40)]
-    for (irecs_, ver, kind, level), (bad, n) in zip(ijobs, ctx.pmap(judge_identity, ijobs)):
+    # xs:ID / xs:IDREF / xs:IDREFS (attributes and ID-typed child elements): a selection that holds every row
+    # reports what the whole document reports
+    for idver in ("1.0", "1.1"):
+        consts = {"NF": 1, "KeyKind": '"key"', "Level": '"inner"', "MaxRows": 3 if thorough else 2, "MaxScopes": 2,
+                  "RowKinds": '{"i", "p", "j", "q"}', "IdVer": f'"{idver}"'}
+        ri = ctx.tlc("Identity", "Identity.cfg", constants=consts, tag=f"ident-ids-{idver}", workers=4)
+        irecs = [x for x in ri.json_records() if c08.canonical(x)]
+        if not thorough:
+            irecs = irecs[::2]
+        ijobs += [(irecs[i:i + 40], idver, "key", "inner", "ids") for i in range(0, len(irecs), 40)]
+    for (irecs_, ver, kind, level, *_), (bad, n) in zip(ijobs, ctx.pmap(judge_identity, ijobs)):
         total += n
         for item in bad:
             rec, ver, xml, what = item[:4]
             ctx.report({"ver": ver, "identity": [kind, level], "doc": rec["doc"], "xml": xml, "observed": what},
                        f"{ver} identity/{kind}/{level}: {what[:400]}  [{xml}]",
                        finding=item[4] if len(item) > 4 else None)
+    # substitution-group members selected by explicit paths
+    import collections
+    rs = ctx.tlc("Derivation", "Derivation.cfg", tag="subst", constants={"Mode": '"subst"', "Small": "TRUE"})
+    by = collections.defaultdict(list)
+    stypes = {}
+    for x in rs.json_records():
+        k = json.dumps(x["cfg"], sort_keys=True)
+        stypes[k] = x["types"]
+        by[k].append((x["inst"], x["valid"], x["pvalid"]))
+    keys = sorted(by)
+    if not thorough:
+        keys = keys[::4]
+    sjobs = [(json.loads(k), stypes[k], by[k]) for k in keys]
+    for (cfg, ty, _), (bad, n) in zip(sjobs, ctx.pmap(judge_subst, sjobs)):
+        total += n
+        for ver, child, xml, what, fid in bad:
+            ctx.report({"ver": ver, "subst": cfg, "types": ty, "child": child, "xml": xml, "observed": what},
+                       f"{ver} substitution {child}: {what[:400]}  [{xml}]", finding=fid)
+    ctx.extra["substitution_configurations"] = len(sjobs)
     for rec in recs[:: max(1, len(recs) // 2)][:2]:
         ctx.sample({"xml": vdoc.render(rec["nodes"]),
                     "governing": [(n["path"], n["decl"]) for n in rec["nodes"]][:8]})
@@ -334,6 +453,15 @@ def run(ctx: Ctx):
 
 
 def replay(ctx: Ctx, case):
+    if "subst" in case:
+        rs = ctx.tlc("Derivation", "Derivation.cfg", tag="subst", constants={"Mode": '"subst"', "Small": "FALSE"})
+        cases = [(x["inst"], x["valid"], x["pvalid"]) for x in rs.json_records()
+                 if x["cfg"] == case["subst"] and x["inst"] == case["child"]]
+        bad, _ = judge_subst((case["subst"], case["types"], cases))
+        for ver, child, xml, what, fid in bad:
+            if ver == case["ver"]:
+                ctx.report(dict(case, observed=what), what[:300], finding=fid)
+        return
     rec = {"nodes": case["nodes"], "fault": case["fault"], "valid": case["valid"]}
     bad, _ = judge(([rec], case["ver"]))
     for rec, ver, xml, what in bad:
